@@ -154,9 +154,28 @@ def check_trial(prog: Program, sc, rec) -> list[dict]:
             viol("U4", f"{sc.ctx_cls.name}.number_of_exchange_particles", sc.ctx_cls.where,
                  f"particle counter changed by a {rec.outcome} trial: {ctx['number_of_exchange_particles']!r}", f"scenario {scen}; path {path}", "number_of_exchange_particles")
     m = rec.machine
+
+    def family(obj, seen=None):
+        """the attempted move and the moves it is composed of"""
+        seen = seen if seen is not None else set()
+        if obj in seen:
+            return seen
+        seen.add(obj)
+        kids = m.heap.get(obj, {}).get("moves")
+        if isinstance(kids, list):
+            for k in kids:
+                if hasattr(k, "obj") and k.obj in m.heap:
+                    family(k.obj, seen)
+        return seen
+
+    attempted = family(rec.move_obj)
     for obj in sc.move_objs:
         ci = m.cls_of[obj]
         after_fail, after_success = one_shot_slots(prog, ci)
+        if obj not in attempted:
+            # a move that was not part of this trial: its pre-selections must simply be untouched; its result records
+            # (what it displaced last time) are not pre-selections of the next move
+            after_fail = after_success = {s_ for s_ in (after_fail | after_success) if s_.startswith("to_")}
         for slot in sorted(after_fail if rec.outcome == "failed" else after_success):
             v = m.heap[obj].get(slot)
             if isinstance(v, NoneV):
